@@ -496,7 +496,8 @@ def control_battery():
     b = []
 
     def sc(src, rows, note, **kw):
-        return Scenario(src, S, default_answer=[0], expect={"row_inputs": [[str(a), str(bb)] for a, bb in rows]}, note=note,
+        kw.setdefault("default_answer", [0])
+        return Scenario(src, S, expect={"row_inputs": [[str(a), str(bb)] for a, bb in rows]}, note=note,
                         max_rows=200, **kw)
     b.append(sc("A B Y\nloop(i,3)\n(i) 0 X\nend loop\n9 9 X\n", [(0, 0), (1, 0), (2, 0), (9, 9)], "simple loop"))
     b.append(sc("A B Y\nlet n = 3;\nrepeat(n) (n) 1 X\n", [(0, 1), (1, 1), (2, 1)], "repeat bound names the implicit counter"))
@@ -535,6 +536,16 @@ def control_battery():
                 "triangular nest: inner loop with bound 0 on the first pass"))
     b.append(sc("A B Y\nlet k = 0;\nloop(i,2)\nrepeat(k) 1 1 X\n(i) 5 X\nend loop\n", [(0, 5), (1, 5)],
                 "zero-trip repeat inside a loop"))
+    # variables and counters named like a device output that the driver does supply (with values that would mislead)
+    b.append(sc("A B Y\nlet Y = 3;\n(Y) 1 X\n(Y+1) 2 X\n", [(3, 1), (4, 2)], "a variable named like a device output wins", default_answer=[7]))
+    b.append(sc("A B Y\nloop(Y,3)\n(Y) 5 X\nend loop\n9 9 X\n", [(0, 5), (1, 5), (2, 5), (9, 9)],
+                "a loop counter named like a device output counts on its own", default_answer=[1]))
+    b.append(sc("A B Y\nlet n = 3;\nrepeat(n) (n) 7 X\n(n) 8 X\n", [(0, 7), (1, 7), (2, 7), (3, 8)],
+                "repeat bound naming the implicit counter reads the outer n", default_answer=[0]))
+    b.append(sc("A B Y\nlet n = 5;\nrepeat(1) (n) 1 X\n(n) 2 X\nloop(n,2)\nrepeat(1) (n) 3 X\nend loop\n", [(0, 1), (5, 2), (0, 3), (0, 3)],
+                "repeat(1) still opens the scope of its counter", default_answer=[0]))
+    b.append(sc("A B Y\nlet acc = 10;\nloop(i,4)\nlet acc = acc + i + 1;\n(i) (acc) X\nend loop\n10 99 X\n",
+                [(0, 11), (1, 13), (2, 16), (3, 20), (10, 99)], "a let in a loop body accumulates across iterations", default_answer=[0]))
     n64 = " ".join("I%d" % i for i in range(64))
     s64_ = [("in", "I%d" % i, 1, 0) for i in range(64)]
     b.append(Scenario("%s\nbits(64, (0-1))\nbits(64, (1<<63))\nbits(64, (~5))\n" % n64, s64_,
